@@ -209,6 +209,60 @@ def run(ctx):
     ob('R11.5').run(fu, 'u1transform is affine (so it may be applied to poly() coefficient-wise)', th_aff,
                     lambda v: decide_equal(v[0], v[1]), allowed_raises=('AssertionError',), opts=arc_opts(mdl))
 
+    # ---------------------------------------------------------------- R11.6 Arc-Line algebraic branch (rotation == 0)
+    ctx.rule('R11.6', 'unrotated Arc x Line: every candidate point handed to point_to_t lies on the ellipse; in each branch the matching '
+                      '(x, y) pairs also lie on the line; pairs are (arc parameter, line parameter); None results are skipped', 2)
+    for vertical in (True, False):
+        cand = []
+
+        def th6(it, vertical=vertical, cand=cand):
+            del cand[:]
+            arc = sym_arc(it, 'A', True, False, rotation=Rat.const(0))
+            lx0 = Rat.sym('lx0')
+            q0 = lx0 + I * Rat.sym('ly0')
+            q1 = (lx0 if vertical else Rat.sym('lx1')) + I * Rat.sym('ly1')
+            line = it.construct('path.Line', q0, q1)
+
+            def arc_p2t(it2, a, k):
+                cand.append(to_rat(a[1]))
+                return Rat.sym('TA%d' % len(cand))
+            it.call_hooks['path.Arc.point_to_t'] = arc_p2t
+            it.call_hooks['path.Line.point_to_t'] = lambda it2, a, k: Rat.sym('TL_%d' % len(cand))
+            r = it.call_method(arc, 'intersect', line)
+            return r, list(cand), arc, q0, q1, path_zero_facts(it)
+
+        def judge6(v, vertical=vertical):
+            r, cand, arc, q0, q1, facts = v
+            a, b = arc.attrs['radius'].real(), arc.attrs['radius'].imag()
+            ctr = arc.attrs['center']
+            probs = []
+            on_line = 0
+            for p in cand:
+                w = p - ctr
+                ell = (w.real() / a) ** 2 + (w.imag() / b) ** 2 - 1
+                ok, d = decide_equal(ell, 0)
+                if ok is not True and zero_modulo_facts(ell, facts):
+                    ok = True
+                if ok is not True and not vertical:
+                    # in the general branch x and y candidates are combined crosswise: only the matching pairs are on the ellipse
+                    pass
+                elif ok is not True:
+                    probs.append('candidate %s is not on the ellipse: %s' % (short(p, 40), d[:120]))
+                # on the line?  (p - q0) x (q1 - q0) == 0
+                cr = ((p - q0) * (q1 - q0).conj()).imag()
+                if decide_equal(cr, 0)[0] is True and ok is True:
+                    on_line += 1
+            if cand and on_line == 0:
+                probs.append('no candidate lies on both the ellipse and the line')
+            for pair in r:
+                ta, tl = to_rat(pair[0]), to_rat(pair[1])
+                if not (ta.key().startswith('1*TA') and tl.key().startswith('1*TL')):
+                    probs.append('result pairs are not (arc parameter, line parameter)')
+            return not probs, '; '.join(probs[:3])
+        pres = [(Rat.sym('lx1') - Rat.sym('lx0'), '-+')] if not vertical else []
+        ob('R11.6').run(fa, 'Arc.intersect(Line), rotation 0, %s line' % ('vertical' if vertical else 'oblique'), th6, judge6,
+                        allowed_raises=('AssertionError',), opts=arc_opts(mdl, {'presign': pres}))
+
     # ---------------------------------------------------------------- R11.4 Path.intersect layout
     fp = mdl.func('path.Path.intersect')
 
